@@ -15,6 +15,11 @@ import Drivers.Common
   bd   <H> <boundary> <val> <ty tokens…>                     → 1 | 0 | stuck          (admitted at the boundary)
   inst <W> <class>                                           → ok | abstract | noclass | selfabstract | missing | stuck
   tbl                                                        → the regenerated table, one token per arm
+  seq  <H> <item;item;…>                                     → one token per item (Model.Access.run on one store)
+         item `a,<path>,<recv>,<mod>,<ctx>,<lex>,<obj>,<decl>,<op>,<key>,<val>` → ok | denied | stuck
+         item `o,<cell keys .>,<call keys .>`                → `v.v.v|n.n`  (start: every cell 1, every counter 0)
+  bseq <H> <boundary> <val.val.…> <ty tokens…>               → `1.0.…|<slot>`   (Model.Types.storeRun, slot `-` = never stored)
+  iseq <W> <class.class.…>                                   → `ok.missing.…|<live objects>`  (Model.Inst.newRun)
 
   H  = `name,ext|-,impl.impl|-;…`     fields of a request are separated by tabs
   W  = `c:name,ext|-,impl|-,abstract 0|1,concrete.m|-,abstr.m|-;…/i:name,ext.ext|-,meths|-;…`
@@ -195,6 +200,48 @@ def showInst : InstOut → String
   | .ok => "ok" | .abstr => "abstract" | .noClass => "noclass" | .selfAbstract => "selfabstract"
   | .missing => "missing" | .stuck => "stuck"
 
+/-! sequences (the history stream of the harness) -/
+
+inductive SeqItem where
+  | att (st : Step)
+  | obs (cells calls : List Name)
+
+def parseSeqItem (s : String) : Option SeqItem :=
+  match s.splitOn "," with
+  | ["o", cs, ks] => do
+    let cs ← nameList cs
+    let ks ← nameList ks
+    some (.obs cs ks)
+  | "a" :: f =>
+    match parseSite (f.take 7), f.drop 7 with
+    | some site, [op, k, v] => do
+      let k ← k.toNat?
+      let v ← v.toNat?
+      let o ← (match op with
+        | "read" => some (Op.read k) | "write1" => some (Op.write k v true) | "write0" => some (Op.write k v false)
+        | "call" => some (Op.call k) | "unset" => some (Op.write k 0 true) | _ => none)
+      some (.att ⟨site, o⟩)
+    | _, _ => none
+  | _ => none
+
+def showRes : Res → String
+  | .ok _ => "ok" | .denied => "denied" | .stuck => "stuck"
+
+def dots (l : List Nat) : String := ".".intercalate (l.map toString)
+
+/-- the attempts between two observations are handed to `Model.Access.run` as one sequence -/
+def seqEval (H : Hier) : Store → List Step → List SeqItem → List String → List String
+  | σ, pend, [], acc => acc.reverse ++ (run Generated.C07Access.table H σ pend.reverse).1.map showRes
+  | σ, pend, .att st :: rest, acc => seqEval H σ (st :: pend) rest acc
+  | σ, pend, .obs cs ks :: rest, acc =>
+    let r := run Generated.C07Access.table H σ pend.reverse
+    let snap := dots (cs.map r.2.cell) ++ "|" ++ dots (ks.map r.2.calls)
+    seqEval H r.2 [] rest (snap :: ((r.1.map showRes).reverse ++ acc))
+
+def showVal : ValKind → String
+  | .int => "int" | .str => "str" | .arr => "arr" | .assoc => "assoc" | .null => "null" | .float => "float"
+  | .bool => "bool" | .obj c => s!"o{c}"
+
 def handle (line : String) : String :=
   match line.splitOn "\t" with
   | "acc" :: h :: rest =>
@@ -239,6 +286,24 @@ def handle (line : String) : String :=
   | ["inst", w, c] =>
     match parseWorld w, c.toNat? with
     | some W, some c => showInst (Model.Inst.instantiate W c)
+    | _, _ => "bad-op"
+  | ["seq", h, items] =>
+    match parseHier h, (items.splitOn ";").mapM parseSeqItem with
+    | some H, some its => " ".intercalate (seqEval H { cell := fun _ => 1, calls := fun _ => 0 } [] its [])
+    | _, _ => "bad-op"
+  | "bseq" :: h :: b :: vs :: toks =>
+    match parseHier h, parseBoundary b, (vs.splitOn ".").mapM parseVal, parseTy (toks.length + 1) toks with
+    | some H, some b, some vs, some (t, []) =>
+      if vs.any (stuckOn H t) then "stuck"
+      else
+        let r := storeRun (isATotal H) (Generated.C07Access.boundary b) t none vs
+        ".".intercalate (r.1.map bit) ++ "|" ++ (match r.2 with | none => "-" | some v => showVal v)
+    | _, _, _, _ => "bad-op"
+  | ["iseq", w, ns] =>
+    match parseWorld w, nameList ns with
+    | some W, some ns =>
+      let r := Model.Inst.newRun W [] ns
+      ".".intercalate (r.1.map showInst) ++ "|" ++ dots r.2
     | _, _ => "bad-op"
   | ["tbl"] =>
     let arms := Path.all.flatMap (fun p => [Recv.this, Recv.other].map (fun r =>
